@@ -124,7 +124,9 @@ ChkReadI(s,F,e,n) ==
      ELSE ChkRead(s,F,e,n) \cup
           (IF e.ret > e.len THEN {"ReadAtMostLen"} ELSE {}) \cup
           (IF e.ret > 0 /\ e.ret # n * e.word * e.ch THEN {"WholeFrames"} ELSE {}) \cup
-          (IF e.ret > 0 /\ e.word \in {1,2} /\ \E i \in 1..Len(e.smp) : ~ConvOK(e.smp[i], e.word, e.sg, e.be) THEN {"PcmConversion"} ELSE {}) \cup
+          \* the reference floats logged beside the words belong to the reported position: they are only the right ones when that position is
+          \* exact (not in the +-1 regime of half rate over odd links); injected values are exact by construction
+          (IF e.ret > 0 /\ e.word \in {1,2} /\ ("inj" \in DOMAIN e \/ ~Loose(s,F)) /\ \E i \in 1..Len(e.smp) : ~ConvOK(e.smp[i], e.word, e.sg, e.be) THEN {"PcmConversion"} ELSE {}) \cup
           (IF ~e.guard THEN {"WritesInsideBuffer"} ELSE {})
 
 ChkReadF(s,F,e) ==
@@ -170,6 +172,7 @@ LandsOK(s,F,k,e) ==
 LinkEnds(F) == { F.links[i].start + F.links[i].N : i \in 1..F.nl }
 LapEofAllowed(s,F,k,e) ==
   \/ (e.rs0 < INITSET /\ s.pos \in LinkEnds(F) /\ e.tell = s.pos)                \* no decode state and at the end of a (logical) stream
+  \/ (e.rs0 < INITSET /\ s.pos < 0 /\ "off0" \in DOMAIN e /\ e.off0 >= F.len)     \* no decode state, position unknown (after a failed seek), byte cursor at the end of the physical stream
   \/ (e.tell \in LinkEnds(F) /\ LandsOK(s,F,k,e))                                 \* sought, and no audio follows the target in its link
 
 ChkSeek(s,F,k,e,flen) ==
